@@ -127,7 +127,12 @@ pub(super) fn execute_aggregate<'a, S: GraphSnapshot + 'a>(
                         if saw_float {
                             Value::Float(float_sum)
                         } else {
-                            Value::Int(int_sum as i64)
+                            // A total beyond the 64-bit range becomes a float, as integer
+                            // arithmetic does on overflow; it never wraps around.
+                            match i64::try_from(int_sum) {
+                                Ok(total) => Value::Int(total),
+                                Err(_) => Value::Float(int_sum as f64),
+                            }
                         }
                     }
                     AggregateFunction::SumDistinct(expr) => {
@@ -166,7 +171,12 @@ pub(super) fn execute_aggregate<'a, S: GraphSnapshot + 'a>(
                         if saw_float {
                             Value::Float(float_sum)
                         } else {
-                            Value::Int(int_sum as i64)
+                            // A total beyond the 64-bit range becomes a float, as integer
+                            // arithmetic does on overflow; it never wraps around.
+                            match i64::try_from(int_sum) {
+                                Ok(total) => Value::Int(total),
+                                Err(_) => Value::Float(int_sum as f64),
+                            }
                         }
                     }
                     AggregateFunction::Avg(expr) => {
